@@ -64,7 +64,7 @@ CONSTANTS Peers,        \* set of strings: the other nodes
           Timeout,      \* peer.PeerEntryTimeout in ticks
           AdvSteps,     \* clock advances, in ticks
           HoldStrict, ExpiryClosed,
-          HoldBy,       \* "deadline" | "instant" | "either" (see below)
+          HoldBy,       \* "deadline" | "instant" | "either" (see above and Recalc)
           Faithful
 
 \* threshold sets for the .cfg files (a cfg cannot write tuples): Thresholds <- ThOne.
